@@ -4,7 +4,7 @@
 #   tools/seed_matrix.sh all            each seed against every check (slow)
 #   tools/seed_matrix.sh own C05-1 ...  selected seeds
 MODE=${1:-own}; shift
-cd /verif
+cd "$(dirname "$0")/.."
 SEEDS=${@:-$(ls seeded)}
 run_one() { # seed check
   local seed=$1 id=$2
@@ -18,4 +18,4 @@ export -f run_one
 for s in $SEEDS; do
   own=${s%-*}
   if [ "$MODE" = own ]; then echo "$s $own"; else for n in $(seq -w 1 20); do echo "$s C$n"; done; fi
-done | xargs -P 3 -L 1 bash -c 'run_one $0 $1'
+done | xargs -P ${MATRIX_PAR:-3} -L 1 bash -c 'run_one $0 $1'
